@@ -223,7 +223,7 @@ def c06(prop, tier, verdict):
     def sig(line):
         c = line.get('case', {})
         what = 'escaped' if line.get('escaped') else '+'.join(k for k in ('alive', 'boundok', 'stateok', 'controlok') if not line.get(k)) or 'err'
-        return 'hostile:%s:%s%s%s:limit=%s:%s' % (c.get('proto'), c.get('class'), ('=' + c.get('lenval')) if c.get('class') == 'lenfield' else '', ('@' + c.get('sess')) if c.get('sess') else '', c.get('limit'), what)
+        return 'hostile:%s:%s%s%s:limit=%s:%s' % (c.get('proto'), c.get('class'), ('=' + c.get('lenval')) if c.get('class') in ('lenfield', 'logged') else '', ('@' + c.get('sess')) if c.get('sess') else '', c.get('limit'), what)
     cov, _ = eng_data.run(prop, tier, verdict, 'Hostile', {}, sig, 200, seeds=3 if tier == 'thorough' else 1)
     cov['receiver_automaton'] = 'spec/HostileRecv.tla: %d distinct states, BoundedAlloc and NoWedge hold' % ra['distinct']
     return 'fault_enumeration', cov, ['protocols raw, json, pb, thrift-binary, http; read limits 4 KiB and 64 KiB (process-global, set per case)',
